@@ -233,20 +233,85 @@ def sampling(tier, rng, rep):
         X = np.concatenate([np.ones((5, 1)), pts], axis=1)
         for nm, iso in isos:
             M = iso.proj_data
-            if np.max(np.abs(M @ J @ M.T - J)) > 1e-7 * max(1.0, np.max(np.abs(M)) ** 2):
+            if not np.all(np.abs(M @ J @ M.T - J) <= 1e-7 * max(1.0, np.max(np.abs(M)) ** 2)):
                 rep.fail("preserves_form", f"{nm}: |M J M^T - J| = {np.max(np.abs(M @ J @ M.T - J)):.2e}", {"n": n, "which": nm, "matrix": M.tolist()})
             Y = X @ M
             q0, q1 = np.einsum('ij,jk,ik->i', X, J, X), np.einsum('ij,jk,ik->i', Y, J, Y)
-            if np.any(np.sign(np.round(q0, 7)) != np.sign(np.round(q1 / max(1.0, np.max(np.abs(M)) ** 2), 7))):
+            # q(xM) = q(x) exactly for an isometry; in float64 the error scales with |M|^2 |x|^2 (words of loxodromics
+            # have large entries), so interior / ideal / exterior is compared through q up to that error
+            tolq = 1e-7 * max(1.0, np.max(np.abs(M)) ** 2) * np.sum(X * X, axis=-1)
+            if np.any(np.abs(q1 - q0) > tolq):
                 rep.fail("keeps_interior_ideal_exterior", f"{nm}", {"n": n, "which": nm, "matrix": M.tolist()})
             d0 = h.Point(X[0].copy()).distance(h.Point(X[1].copy()))
             d1 = (iso @ h.Point(X[0].copy())).distance(iso @ h.Point(X[1].copy()))
-            if abs(d0 - d1) > 1e-6 * (1 + d0):
+            # float64 conditioning: the form defect of a computed word is ~ eps |M|^2 (see preserves_form)
+            if not (abs(d0 - d1) <= 1e-6 * (1 + d0) + 1e-13 * np.max(np.abs(M)) ** 2):
                 rep.fail("preserves_distance", f"{nm}: {d0} vs {d1}", {"n": n, "which": nm, "matrix": M.tolist()})
             rep.case(key=(t, nm), nontrivial=(n >= 3 or nm.startswith("word")), sample={"n": n, "which": nm} if t == 0 else None)
 
 
+@bounded(P, "parameter_dtypes", functions=[H + "Isometry.standard_rotation", H + "Isometry.standard_loxodromic", H + "Isometry.elliptic", H + "Point.origin_to",
+                                           H + "sl2_iso", H + "Subspace.reflection_across", H + "spacelike_to", H + "timelike_to", U + "identity", U + "zeros"],
+         note="the constructor parameters of the quantifier are numbers, not float64 objects: Python ints, NumPy integer / float32 scalars and integer arrays must give isometries as well")
+def parameter_dtypes(tier, rng, rep):
+    rep.rule = ("every constructor with integer-typed / float32 / list parameters (angles 0,1,2,-3 as int, np.int32, np.int64, np.float32, 0-d arrays; integer points, normals, "
+                "SL(2,Z) matrices, permutation blocks), dimensions 2..4; compared with the same constructor on float64 parameters; non-trivial = the parameter is not float64")
+    rep.bound = "4 angles x 6 types x 3 dimensions + 40 integer points / normals / matrices"
+    conv = [("int", int), ("np.int32", np.int32), ("np.int64", np.int64), ("np.float32", np.float32), ("array0d_int", lambda a: np.array(int(a))),
+            ("float", float)]
+
+    refused = {}
+
+    def check(nm, make, make_ref, n, inp):
+        try:    # a constructor that refuses a parameter type loudly returns no isometry: nothing to check (the float64 path is in `sampling`)
+            iso = make()
+        except (TypeError, ValueError) as e:
+            refused[nm] = refused.get(nm, 0) + 1
+            rep.case(key=(nm, "refused", str(sorted(inp.items()))), nontrivial=False)
+            return
+        M = np.asarray(iso.proj_data, dtype=float)
+        J = spec.J(n + 1)
+        if M.shape != (n + 1, n + 1) or not np.all(np.abs(M @ J @ M.T - J) <= 1e-5 * max(1.0, np.max(np.abs(M)) ** 2)):
+            rep.fail("preserves_form", f"{nm}: M J M^T != J, M = {M.tolist()}", inp)
+        elif make_ref is not None:
+            R = np.asarray(make_ref().proj_data, dtype=float)
+            if not np.all(np.abs(R - M) <= 1e-5 * max(1.0, np.max(np.abs(R)))):
+                rep.fail("same_isometry_as_for_float64_parameters", f"{nm}: {M.tolist()} vs {R.tolist()}", inp)
+        rep.case(key=(nm, str(sorted(inp.items()))), nontrivial=True)
+
+    for n in (2, 3, 4):
+        for a in (0, 1, 2, -3):
+            for tn, cv in conv:
+                inp = {"n": n, "angle": a, "type": tn}
+                check("rotation", lambda: h.Isometry.standard_rotation(cv(a), dimension=n), lambda: h.Isometry.standard_rotation(float(a), dimension=n), n, inp)
+                if a > 0:
+                    check("loxodromic", lambda: h.Isometry.standard_loxodromic(n, cv(a)), lambda: h.Isometry.standard_loxodromic(n, float(a)), n, inp)
+        for k in range(6 if tier == "quick" else 30):
+            sp = rng.integers(-3, 4, size=n)
+            x = np.concatenate([[int(np.sum(np.abs(sp))) + 1 + int(rng.integers(0, 3))], sp]).astype(rng.choice([np.int64, np.int32]))
+            inp = {"n": n, "point": x.tolist(), "dtype": str(x.dtype)}
+            check("origin_to", lambda: h.Point(x.copy()).origin_to(), lambda: h.Point(x.astype(float)).origin_to(), n, inp)
+            check("origin_to_list", lambda: h.Point(x.tolist()).origin_to(), lambda: h.Point(x.astype(float)).origin_to(), n, inp)
+            check("timelike_to", lambda: h.timelike_to(x.copy()), lambda: h.timelike_to(x.astype(float)), n, inp)
+            sv = rng.integers(-3, 4, size=n)
+            if not np.any(sv):
+                sv[0] = 1
+            v = np.concatenate([[int(rng.integers(0, 2)) * (1 if np.sum(sv * sv) > 1 else 0)], sv]).astype(np.int64)
+            inp = {"n": n, "normal": v.tolist()}
+            check("reflection", lambda: h.Hyperplane(v.copy()).reflection_across(), lambda: h.Hyperplane(v.astype(float)).reflection_across(), n, inp)
+            check("spacelike_to", lambda: h.spacelike_to(v.copy()), None, n, inp)
+            perm = np.eye(n, dtype=np.int64)[rng.permutation(n)]
+            inp = {"n": n, "block": perm.tolist()}
+            check("elliptic", lambda: h.Isometry.elliptic(n, perm.copy()), lambda: h.Isometry.elliptic(n, perm.astype(float)), n, inp)
+    for A in ([[1, 1], [0, 1]], [[2, 1], [1, 1]], [[0, 1], [-1, 0]], [[1, 0], [0, -1]], [[3, 2], [4, 3]], [[1, 2], [1, 1]]):
+        for dt in (np.int64, np.int32, None):
+            Ai = np.array(A, dtype=dt) if dt else A
+            inp = {"n": 2, "sl2": A, "dtype": str(dt)}
+            check("sl2_iso", lambda: h.sl2_iso(Ai), lambda: h.sl2_iso(np.array(A, dtype=float)), 2, inp)
+
+
 from vf.pcontract import lean_lemmas
-lean_lemmas(P, "closure_lemmas", "lean/Glue.lean", ["form_mul", "form_inv", "form_apply"],
+lean_lemmas(P, "closure_lemmas", "lean/Glue.lean", ["form_mul", "form_inv", "form_apply", "conj_form"],
             note="matrices with M J M^T = J are closed under products and inverses and preserve the form of any pair of rows (all sizes, any commutative ring): "
-                 "with the per-constructor contracts this gives form preservation for every word of compositions / inverses, hence distance invariance")
+                 "with the per-constructor contracts this gives form preservation for every word of compositions / inverses, hence distance invariance; conj_form: conjugating the geometric representation (which preserves the cosine form, C08) by the W of diagonalize_form "
+                 "(W^T B W = diag(+-1), C18) gives matrices preserving diag(+-1): the hyperbolic representations of Coxeter groups")
